@@ -21,8 +21,10 @@ def plans(quick):
                  checks=[dict(steps=4, slots=1, lists=[['e1', 'e2']])],
                  gen=dict(steps=4, slots=1, lists=[['e1', 'e2']], fail=False, restart=False), cover_limit=150, walks=40,
                  sim=dict(num=80, depth=10, slots=1, lists=[['e1', 'e2']])),
+            dict(family='names', name_mode=True, opts=opts, gen=dict(steps=4, slots=1, rcs=['top1', 'top2'], lists=[['top1', 'top2'], ['top1']], fail=False, restart=False), cover_limit=120, walks=40, sim=dict(num=80, depth=10, slots=1, rcs=['top1', 'top2', 'model'], lists=[['top1', 'top2'], ['top1'], ['model']])),
         ]
     return [
+        dict(family='names', name_mode=True, opts=opts, checks=[dict(steps=4, slots=1, rcs=['top1', 'top2'], lists=[['top1', 'top2'], ['top1']])], gen=dict(steps=5, slots=1, rcs=['top1', 'top2'], lists=[['top1', 'top2'], ['top1']]), walks=200, sim=dict(num=600, depth=14, slots=1)),
         dict(family='deep', opts=opts, checks=[dict(steps=5, slots=1, lists=[['e1', 'e2']])],
              gen=dict(steps=5, slots=1, lists=[['e1', 'e2']]), walks=200, sim=dict(num=800, depth=14, slots=1)),
     ] + [
